@@ -1081,6 +1081,9 @@ def payload_of(v, path="", depth=0, out=None):
             # boolean flags of the instance (not caches): == may ignore them (ConstantQubitNoiseModel._prepend)
             if isinstance(attrs[k], bool) and "cache" not in k and not k.startswith("__"):
                 out.append((f"{path}<{_tname(v)}>#{k}", ("flag", attrs[k])))
+            elif isinstance(attrs[k], np.ndarray) and "cache" not in k:
+                # arrays an instance stores but writes as nested lists (MatrixGate._matrix)
+                out.append((f"{path}<{_tname(v)}>#{k}", _array_desc(attrs[k])))
         if hasattr(v, "_json_dict_"):
             try:
                 d = v._json_dict_()
@@ -1184,11 +1187,40 @@ def behaviour_equal(a, b, what: str) -> dict:
         # `1.0`, and -0.0 == 0.0.
         ok = (ra is not None and rb is not None and ra[0] == rb[0] and len(ra[1]) == len(rb[1]) and all(
             p.shape == q.shape and np.array_equal(p, q) for p, q in zip(ra[1], rb[1])))
+        if not ok and ra is not None and rb is not None and ra[0] == rb[0] and len(ra[1]) == len(rb[1]):
+            # Exactness is demanded of values that store the same numbers the same way.  A document that keeps a
+            # matrix as a nested list carries no dtype, so a complex64 / float32 payload is read back wider
+            # (accepted by the payload oracle); whatever Cirq then *computes* from it (an inverse through an
+            # eigendecomposition, a product) differs in the last digits of the narrower type.  Only then a
+            # tolerance applies: 64 ulp of the narrowest floating dtype stored in either value, times the dimension.
+            tol = _narrowing_tolerance(x, y)
+            if tol is not None:
+                ok = all(p.shape == q.shape and np.allclose(p, q, rtol=0, atol=tol * max(p.shape or (1,)))
+                         for p, q in zip(ra[1], rb[1]))
+                if ok:
+                    out["widened"] = True
         out["kind"] = (ra or rb)[0]
         if not ok and out["same"]:
             out["same"] = False
             out["where"] = _locate_behaviour(x, y)
     return out
+
+
+def _narrowing_tolerance(x, y):
+    """None if the two values store their arrays with the same dtypes; else 64 ulp of the narrowest floating
+    dtype stored in either."""
+    dx = [d[1] for _, d in payload_of(x) if d[0] == "ndarray"]
+    dy = [d[1] for _, d in payload_of(y) if d[0] == "ndarray"]
+    if dx == dy:
+        return None
+    eps = []
+    for name in dx + dy:
+        dt = np.dtype(name)
+        if dt.kind in "fc":
+            eps.append(float(np.finfo(dt).eps))
+    if not eps:
+        return None
+    return 64 * max(eps)
 
 
 def _same_behaviour(x, y):
@@ -1680,7 +1712,12 @@ def op_corpus_read(req):
     robj = _sut("corpus:eval-repr", eval, rtext, dict(EVAL_GLOBALS), {})
     out = {"eq": _sut("corpus:eq", _eq, jobj, robj), "outward": None, "type": _tname(jobj),
            "family": derive_family(jobj), "cirq_top": _cirq_top(jobj)}
-    out["payload"] = payload_compare(payload_of(jobj), payload_of(robj), exact=False)
+    # (arrays an instance stores privately and writes as nested lists -- MatrixGate._matrix -- are left out
+    # here: a stored document and its paired repr may spell the same matrix with different literals, 0.7071... vs
+    # np.sqrt(0.5), which == compares with a tolerance; they are compared on hops, against the exported value)
+    def public(desc):
+        return [(p_, d_) for p_, d_ in desc if not (d_[0] == "ndarray" and "#" in p_.rsplit(">", 1)[-1])]
+    out["payload"] = payload_compare(public(payload_of(jobj)), public(payload_of(robj)), exact=False)
     if not inward:
         again = _sut("corpus:to_json", cirq.to_json, robj)
         out["outward"] = (json.loads(again) == json.loads(jtext))
